@@ -445,6 +445,45 @@ def sub_toggle(bi, acc, fi=None, part=None, nparts=1):
                     break
 
 
+PAIR_RULES = ["emphasis", "strikethrough", "table", "fence", "html_inline", "link", "list", "backticks", "heading"]
+PAIR_DOCS = WARM_DOCS + ["*a* ~~b~~ `c` <i>d</i> [e](f)\n\n```\ng\n```\n\n|h|\n|-|\n\n- i\n", "    # a\n", "a\n***\nb\n", "~~x~~ **y**\n"]
+
+
+def sub_toggle_pairs(bi, part, nparts, acc):
+    """one enable/disable call with two names (either of which may already be in the requested state) after use"""
+    base = BASES[bi]
+    n = 0
+    for meth in ("disable", "enable"):
+        for a in PAIR_RULES:
+            for b in PAIR_RULES:
+                if a == b:
+                    continue
+                n += 1
+                if n % nparts != part:
+                    continue
+                for pre in (None, ("disable", [b]), ("disable", [a])):
+                    acc.case()
+                    used, fresh = _mk(base), _mk(base)
+                    for m in (used, fresh):
+                        if pre:
+                            getattr(m, pre[0])(pre[1])
+                    for w in WARM_DOCS:
+                        acc.call(used.render, w)
+                    for m in (used, fresh):
+                        getattr(m, meth)([a, b])
+                    acc.sig(("toggle2", bi, meth, a, b, bool(pre)))
+                    for d in PAIR_DOCS:
+                        x = acc.call(used.render, d)
+                        y = acc.call(fresh.render, d)
+                        if x is CRASH or y is CRASH:
+                            continue
+                        if x != y:
+                            acc.violation("toggle", f"{meth} of two names applied after use differs from before use",
+                                          {"base": bi, "first": pre, "action": [meth, [a, b]], "src": d},
+                                          f"after parsing, {meth}({[a, b]}) does not have the effect it has on a fresh instance")
+                            break
+
+
 # ---- driver --------------------------------------------------------------------------------------------------
 def docs_small():
     out = list(S.docs(S.FREE_LINES, 2)) + list(S.strings(S.ATOMS, 2)) + I.core_docs()
@@ -499,6 +538,8 @@ def shards(tier):
         for fi in range(len(TOGGLE_FIRSTS)):
             for part in range(4):
                 sh.append(("toggle", bi, fi, part, 4))
+        for part in range(8):
+            sh.append(("toggle2", bi, part, 8))
     return sh
 
 
@@ -559,6 +600,9 @@ def run_shard(sh, acc):
     elif kind == "codeoff":
         sub_code_off(acc)
         acc.sample(kind, {"src": "    # a\n"}, 1)
+    elif kind == "toggle2":
+        sub_toggle_pairs(sh[1], sh[2], sh[3], acc)
+        acc.sample("toggle", {"base": BASES[sh[1]], "history": ["render(warm-up)", "disable(['emphasis', 'strikethrough'])", "render(probe)"]}, 1)
     elif kind == "toggle":
         sub_toggle(sh[1], acc, sh[2], sh[3], sh[4])
         acc.sample(kind, {"base": BASES[sh[1]], "history": ["render(warm-up)", "disable('code')", "parse('    # a')"]}, 1)
@@ -599,4 +643,7 @@ def check_case(case, acc):
     elif sub == "codeoff":
         sub_code_off(acc)
     elif sub == "toggle":
-        sub_toggle(case["base"], acc)
+        if isinstance(case.get("action"), list) and len(case["action"]) == 2 and isinstance(case["action"][1], list):
+            sub_toggle_pairs(case["base"], 0, 1, acc)
+        else:
+            sub_toggle(case["base"], acc)
